@@ -306,13 +306,18 @@ impl World {
     /// Two ops executed by two caller threads, interleaved deterministically at the RNG seam (see
     /// simrng::Gate). Each runs on its own copy of the slots; what they produced is merged back.
     fn op_par(&mut self, op: &Value) -> R<Value> {
-        let a = op.get("a").cloned().ok_or("par: field 'a' missing")?;
-        let b = op.get("b").cloned().ok_or("par: field 'b' missing")?;
-        let order: Vec<u8> = gs(op, "order")?.bytes().map(|c| if c == b'A' { 0 } else { 1 }).collect();
-        let gate = crate::simrng::Gate::new(&order);
-        let (a_for_stats, b_for_stats) = (a.clone(), b.clone());
-        // stateful objects go with the caller that names them (a caller's op may name several); the
-        // two callers must not name the same object: one object is one caller's
+        // two callers: fields `a`, `b`; more (up to 26): field `ops`. Order letters: A = first caller ...
+        let ops: Vec<Value> = match op.get("ops").and_then(|v| v.as_array()) {
+            Some(v) => v.clone(),
+            None => vec![op.get("a").cloned().ok_or("par: field 'a' missing")?, op.get("b").cloned().ok_or("par: field 'b' missing")?],
+        };
+        let n = ops.len();
+        if !(2..=26).contains(&n) {
+            return Err("par: 2..=26 callers".into());
+        }
+        let order: Vec<u8> = gs(op, "order")?.bytes().filter(|c| c.is_ascii_uppercase()).map(|c| c - b'A').collect();
+        let gate = crate::simrng::Gate::new_n(&order, n);
+        // stateful objects go with the caller that names them; no object may be named by two callers
         fn names(v: &Value, out: &mut std::collections::BTreeSet<String>) {
             match v {
                 Value::String(s) => {
@@ -323,47 +328,44 @@ impl World {
                 _ => {}
             }
         }
-        let (mut na, mut nb) = (Default::default(), Default::default());
-        names(&a, &mut na);
-        names(&b, &mut nb);
+        let named: Vec<std::collections::BTreeSet<String>> = ops
+            .iter()
+            .map(|o| {
+                let mut s = Default::default();
+                names(o, &mut s);
+                s
+            })
+            .collect();
         let mut objs = std::mem::take(&mut self.objs);
-        let (mut oa, mut ob) = (crate::objs::Objs::default(), crate::objs::Objs::default());
+        let mut per: Vec<crate::objs::Objs> = (0..n).map(|_| crate::objs::Objs::default()).collect();
+        let owners = |k: &String| -> Vec<usize> { (0..n).filter(|i| named[*i].contains(k)).collect() };
         for k in objs.kex.keys().cloned().collect::<Vec<_>>() {
-            match (na.contains(&k), nb.contains(&k)) {
-                (true, true) => {
-                    self.objs = objs;
-                    return Err(format!("par: both callers name object '{k}'"));
-                }
-                (true, false) => {
-                    oa.kex.insert(k.clone(), objs.kex.remove(&k).unwrap());
-                }
-                (false, true) => {
-                    ob.kex.insert(k.clone(), objs.kex.remove(&k).unwrap());
-                }
-                _ => {}
+            let o = owners(&k);
+            if o.len() > 1 {
+                self.objs = objs;
+                return Err(format!("par: several callers name object '{k}'"));
+            }
+            if let Some(i) = o.first() {
+                per[*i].kex.insert(k.clone(), objs.kex.remove(&k).unwrap());
             }
         }
         for k in objs.zuc.keys().cloned().collect::<Vec<_>>() {
-            match (na.contains(&k), nb.contains(&k)) {
-                (true, true) => {
-                    self.objs = objs;
-                    return Err(format!("par: both callers name object '{k}'"));
-                }
-                (true, false) => {
-                    oa.zuc.insert(k.clone(), objs.zuc.remove(&k).unwrap());
-                }
-                (false, true) => {
-                    ob.zuc.insert(k.clone(), objs.zuc.remove(&k).unwrap());
-                }
-                _ => {}
+            let o = owners(&k);
+            if o.len() > 1 {
+                self.objs = objs;
+                return Err(format!("par: several callers name object '{k}'"));
+            }
+            if let Some(i) = o.first() {
+                per[*i].zuc.insert(k.clone(), objs.zuc.remove(&k).unwrap());
             }
         }
-        let (mut wa, mut wb) = (self.fork(), self.fork());
+        let pre = !self.violations.is_empty() || self.pre_violated;
+        let mut worlds: Vec<World> = (0..n).map(|_| self.fork()).collect();
         self.objs = objs;
-        wa.objs = oa;
-        wb.objs = ob;
-        wa.pre_violated = !self.violations.is_empty() || self.pre_violated;
-        wb.pre_violated = wa.pre_violated;
+        for (w, o) in worlds.iter_mut().zip(per) {
+            w.objs = o;
+            w.pre_violated = pre;
+        }
         let run = |mut w: World, o: Value, me: u8, g: std::sync::Arc<crate::simrng::Gate>| {
             std::thread::Builder::new()
                 .stack_size(64 << 20)
@@ -385,15 +387,22 @@ impl World {
                 })
                 .map_err(|e| e.to_string())
         };
-        let ha = run(wa, a, 0, gate.clone())?;
-        let hb = run(wb, b, 1, gate.clone())?;
-        let (wa, ra) = ha.join().map_err(|_| "par: thread A panicked".to_string())?;
-        let (wb, rb) = hb.join().map_err(|_| "par: thread B panicked".to_string())?;
+        let mut handles = vec![];
+        for (i, (w, o)) in worlds.into_iter().zip(ops.iter().cloned()).enumerate() {
+            handles.push(run(w, o, i as u8, gate.clone())?);
+        }
+        // the callers are watched one by one (each while it runs); this thread only waits for them
+        crate::runner::watch_exempt();
+        let mut done: Vec<(World, Value)> = vec![];
+        for h in handles {
+            done.push(h.join().map_err(|_| "par: a caller thread panicked".to_string())?);
+        }
         let step = self.history.len();
         let observed_before = self.observed.len();
         let mut par_seen: std::collections::BTreeSet<(String, Vec<u8>)> = Default::default();
-        let mut widx = 0;
-        for mut w in [wa, wb] {
+        let mut results = vec![];
+        for (mut w, r) in done {
+            results.push(r);
             if w.nondeterministic {
                 self.nondeterministic = true;
             }
@@ -430,7 +439,7 @@ impl World {
                 }
                 self.used_scalars.entry(k).or_insert(st);
             }
-            // scalars the REAL generator produced for the two callers must differ as well
+            // scalars the REAL generator produced for the callers must differ as well
             // (a fork starts with the parent's list: only what this caller added counts)
             let added: Vec<(String, Vec<u8>)> = w.observed.split_off(observed_before.min(w.observed.len()));
             for (g, v) in &added {
@@ -439,20 +448,25 @@ impl World {
                     self.check("C14", "M3-callers-fresh", false, fnv(&[b"par-real-dup", v]), key, || format!("two concurrent callers obtained the same {g} scalar {} from the real generator", hex::encode(v)));
                 }
             }
-            if widx == 0 {
-                par_seen.extend(added.iter().cloned());
-            }
-            widx += 1;
+            par_seen.extend(added.iter().cloned());
             self.observed.extend(added);
         }
         self.bump("history.concurrent-callers");
-        // measure of reach: distinct (pair of operations, interleaving that took place)
+        if n > 2 {
+            self.bump("history.concurrent-callers-more-than-two");
+        }
+        // measure of reach: distinct (operations, interleaving that took place)
         let opn = |v: &Value| v.get("op").and_then(|o| o.as_str()).unwrap_or("").to_string();
-        let il = fnv(&[opn(&a_for_stats).as_bytes(), opn(&b_for_stats).as_bytes(), &gate.trace()]);
+        let names_cat: String = ops.iter().map(opn).collect::<Vec<_>>().join("|");
+        let il = fnv(&[names_cat.as_bytes(), &gate.trace()]);
         self.cases.entry("interleavings".into()).or_default().insert(il);
         self.bump_by("probe.par.thread-switches", gate.switches() as u64);
         self.bump_by("probe.par.forced-handover", gate.forced() as u64);
-        Ok(json!({"a": ra, "b": rb, "switches": gate.switches()}))
+        if n == 2 {
+            Ok(json!({"a": results[0], "b": results[1], "switches": gate.switches()}))
+        } else {
+            Ok(json!({"results": results, "switches": gate.switches()}))
+        }
     }
 
     /// Oracle on the result summary of the previous op (e.g. a corpus item must have been accepted).
